@@ -183,7 +183,7 @@ bool containsCall(const Node& n) { if (n.k == K::FuncCall) return true; for (aut
 
 // ------------------------------------------------------------------------------------------------
 // C03
-std::vector<Node> arityFamily(); std::vector<Node> siblingFamily(); std::vector<Node> curated();
+std::vector<Node> arityFamily(); std::vector<Node> siblingFamily(); std::vector<Node> vclassFamily(); std::vector<Node> recursionFamily(); std::vector<Node> curated();
 void run_types(Ctx& c, const Setup& setup, const rsgen::Generator& gen, int depth) {
   ImplEnv env(setup);
   uint64_t i = 0;
@@ -246,7 +246,7 @@ void run_types(Ctx& c, const Setup& setup, const rsgen::Generator& gen, int dept
     if (i % 7919 == 5) c.rep.sample(rsast::render(T, RenderOpt{}).text + (modelOk ? "  :  " + mr.type.str() : "  :  ill-typed (" + mr.why + ")"));
     c.done();
   };
-  try { for (auto& n : arityFamily()) one(Node(n)); for (auto& n : siblingFamily()) one(Node(n)); for (auto& n : curated()) one(Node(n)); gen.scopeSkeletons(static_cast<int>(c.opt->num("scopebudget", 6)), one); gen.closedStream(depth, one); gen.imperativeChains(one, 2); streamDefinitions(gen, one); } catch (const StopEnumeration&) {}
+  try { for (auto& n : arityFamily()) one(Node(n)); for (auto& n : siblingFamily()) one(Node(n)); for (auto& n : vclassFamily()) one(Node(n)); for (auto& n : recursionFamily()) one(Node(n)); for (auto& n : curated()) one(Node(n)); gen.scopeSkeletons(static_cast<int>(c.opt->num("scopebudget", 6)), one); gen.closedStream(depth, one); gen.imperativeChains(one, 2); streamDefinitions(gen, one); } catch (const StopEnumeration&) {}
 }
 
 
@@ -452,6 +452,31 @@ std::vector<Node> arityFamily() {
   }
   std::vector<Node> out; rl::Parser p;
   for (auto& t : texts) { if (!p.Parse(t, rl::Syntax::MATH)) { fprintf(stderr, "HARNESS-ASSERT: arity-family text does not parse: %s\n", t.c_str()); exit(2); } out.push_back(fromImplTree(p.AST().Root())); }
+  return out;
+}
+
+// Value-class family (added after a round-8 seed): products of 2 and 3 factors over property-class, value-class and
+// individually unauditable terms in every order (a property factor must not hide a later factor's verdict), also under ℬ( ).
+std::vector<Node> vclassFamily() {
+  const std::string x = "\xC3\x97", B = "\xE2\x84\xAC";
+  const std::vector<std::string> f = { B + "(X1)", "D4", B + "(D1)", "X1", "D1", "S1", "{" + B + "(X1)}", "{D4}", "red(" + B + "(D4))", "Pr1(D4" + x + "D1)", "bool(D4)", "card(D4)", "debool({D4})" };
+  std::vector<std::string> texts;
+  for (auto& a : f) for (auto& b : f) { texts.push_back(a + x + b); texts.push_back(B + "(" + a + x + b + ")"); for (auto& c2 : f) texts.push_back(a + x + b + x + c2); }
+  std::vector<Node> out; rl::Parser p;
+  for (auto& t : texts) { if (!p.Parse(t, rl::Syntax::MATH)) { fprintf(stderr, "HARNESS-ASSERT: vclass-family text does not parse: %s\n", t.c_str()); exit(2); } out.push_back(fromImplTree(p.AST().Root())); }
+  return out;
+}
+
+// Recursion re-check family (added after a round-7 seed): the step is typed twice - with the initial type and with the deduced one;
+// steps that are well-typed for an initial EMPTY set only, with and without a condition (type checker only: some would diverge)
+std::vector<Node> recursionFamily() {
+  const std::string U = "\xE2\x88\xAA", E = "\xE2\x88\x85";
+  const std::vector<std::string> inits = { E, "{" + E + "}", "D1", "S2", "(" + E + ", " + E + ")" };
+  const std::vector<std::string> steps = { "red(a)" + U + "X1", "debool(a)" + U + "X1", "bool(a)", "{a}", "a" + U + "{a}", "\xE2\x84\xAC(a)", "a\xC3\x97" "a", "Pr1(a)" + U + "X1", "pr1(a)", "(a, a)", "a" + U + "X1", "a" + U + "S2", "red(a)", "card(a)", "{card(a)}" + U + "a", "a\\X1", "F1[a]", "F1[a]" + U + "X1" };
+  std::vector<std::string> texts;
+  for (auto& i : inits) for (auto& st : steps) { texts.push_back("R{a:=" + i + " | " + st + "}"); texts.push_back("R{a:=" + i + " | 1=1 | " + st + "}"); texts.push_back("R{a:=" + i + " | card(a)<2 | " + st + "}"); }
+  std::vector<Node> out; rl::Parser p;
+  for (auto& t : texts) { if (!p.Parse(t, rl::Syntax::MATH)) { fprintf(stderr, "HARNESS-ASSERT: recursion-family text does not parse: %s\n", t.c_str()); exit(2); } out.push_back(fromImplTree(p.AST().Root())); }
   return out;
 }
 
